@@ -621,6 +621,9 @@ func (s *Sim) enabled(faults bool) []Action {
 	links := append([]Deliverable(nil), s.links...)
 	pk := append([]*parked(nil), s.parkedL...)
 	s.mu.Unlock()
+	// canonical order: by id, not by registration order (connections may be
+	// created by tasks that run in the same macro-step)
+	sort.SliceStable(links, func(i, j int) bool { return links[i].ID() < links[j].ID() })
 	var acts []Action
 	for _, l := range links {
 		if l.Pending() > 0 {
